@@ -80,7 +80,7 @@ static polyseed_data* obtain(pv_rng* rng, const pv_mseed* m, int how, unsigned c
     }
 }
 
-static uint64_t n_keygen(void) { return pv_scaled(200000, 4000000); }
+static uint64_t n_keygen(void) { return pv_scaled(200000, 20000000); }
 static void run_keygen(uint64_t idx, pv_rng* rng) {
     pv_mseed m; pv_gen_mseed(rng, 7, true, &m);
     int how = (int)(idx % 5);
@@ -139,7 +139,7 @@ static void run_keygen(uint64_t idx, pv_rng* rng) {
 }
 
 /* the same abstract seed/coin through all five paths: identical KDF inputs (feeds the online map with repeats) */
-static uint64_t n_paths(void) { return pv_scaled(10000, 200000); }
+static uint64_t n_paths(void) { return pv_scaled(10000, 2000000); }
 static void run_paths(uint64_t idx, pv_rng* rng) {
     (void)idx;
     pv_mseed m; pv_gen_mseed(rng, 7, false, &m);
@@ -239,7 +239,7 @@ static void* cworker(void* p) {
     free(img); free(key); free(pv_w); pv_w = NULL;
     return NULL;
 }
-static uint64_t n_conc(void) { return pv_scaled(4, 40); }
+static uint64_t n_conc(void) { return pv_scaled(4, 200); }
 static void run_conc(uint64_t idx, pv_rng* rng) {
     enum { NT = 8 };
     static cctx c[NT]; pthread_t th[NT]; pv_world* mainw = pv_w;
